@@ -240,6 +240,13 @@ def tc2(ctx, R):
                         base = _mk_oracle(marker, known, rel)
 
                         a_s = simplify(a, base)
+                        # the end that is compared must be the end of the segment as it will be used: in both scenarios the size of the file
+                        end_op = a_s[2] if _role(a[2]) == "end" else a_s[3]
+                        end_op = _resolve_minmax(end_op, rel)
+                        if pos == "before" and not _is_size(end_op) and not (isinstance(end_op, tuple) and end_op and end_op[0] == "phi"):
+                            bad.append("%s: the test compares `%s` with the data position, not the end of the file - the end of the segment is only "
+                                       "cut back to the file's size afterwards, so a lead-in that claims more than the file holds never looks torn" % (inc_name, show(end_op)[:60]))
+                            continue
 
                         def orc(c, base=base, pos=pos, a=a, a_s=a_s):
                             if c == a or c == a_s:
@@ -266,7 +273,7 @@ def tc2(ctx, R):
                     R.undecided(key, f.where(r), "guards not decided in every scenario: %s" % "; ".join(show(gd)[:80] for gd in guards_in))
                 else:
                     R.check(not bad, key, f.where(r), "EOFError exactly when an incomplete segment ends before its data begins (by marker or by the end of the file)",
-                            "; ".join(bad) + ": " + ("a segment whose metadata was cut is parsed from bytes that are not there" if any("does not raise" in b for b in bad)
+                            "; ".join(bad) + ": " + ("a segment whose metadata was cut is parsed from bytes that are not there" if any("does not raise" in b or "never looks torn" in b for b in bad)
                                                      else "a segment whose metadata is complete is dropped with its objects and properties"))
     if n_len == 0:
         R.unrecognised("reader::short read of the lead-in", top.where(), "no `raise EOFError` guarded by the length of what a fixed-size read returned was found")
